@@ -1,4 +1,4 @@
-import PnVerif.Model.Access
+import PnVerif.Model.Scs
 /-
   Specification side of C15, written from the API documentation (netCDF C guide, vars/vara/var1;
   PnetCDF RELEASE_NOTES 1.10.0 for the relaxed coordinate bound), NOT from the checker:
@@ -18,7 +18,7 @@ import PnVerif.Model.Access
   exceeds the extent, or missing count), NC_ENEGATIVECNT (count < 0), NC_ESTRIDE (stride ≤ 0).
 -/
 namespace PnVerif.Spec.InBounds
-open PnVerif.Access
+open PnVerif.Scs
 
 /-- one dimension of a request is inside an array extent (`bounded = false`: the record
     dimension of a write, which has no upper bound) -/
